@@ -226,7 +226,7 @@ def buffer_address_inst(pointee, tier):
          '  unsigned long r = $ROOT((void *)&p, vf, in_count);\n' % TT)
     return Inst('c10_buffer_address_%s' % tid(pointee), 'tainted<%s*, vsbx>& p, VAddr verifier, size_t count' % pointee, 'p.copy_and_verify_buffer_address(verifier, count);',
                 cl, h, leaves=['dynamic_check', CHECK_RANGE_LEAF], prop=PROP, root_name='copy_and_verify_buffer_address', tier=tier, pre=SPEC + ' unsigned g_vcalls;\n',
-                post_protos=stub, opts={'param_fn_stubs': {'verifier': 'verifier_stub'}}, extra_replace=['verifier_stub'],
+                post_protos=stub, opts={'param_fn_stubs': {'*': 'verifier_stub'}}, extra_replace=['verifier_stub'],
                 replay={'kind': 'buffer_address', 'pointee': pointee, 'esz': esz})
 
 
